@@ -9,6 +9,9 @@ use rosu_map::section::general::{CountdownType, GameMode};
 use rosu_map::Beatmap;
 use serde_json::{json, Value};
 
+/// the model's symbol "e" is "some character without a meaning in the syntax": which one is drawn with the seed
+static OTHER_CHAR: std::sync::atomic::AtomicU32 = std::sync::atomic::AtomicU32::new('é' as u32);
+
 fn sym_char(s: &str) -> char {
     match s {
         "a" => 'a',
@@ -18,7 +21,7 @@ fn sym_char(s: &str) -> char {
         "q" => '"',
         "b" => '\\',
         " " => ' ',
-        "e" => 'é',
+        "e" => char::from_u32(OTHER_CHAR.load(std::sync::atomic::Ordering::Relaxed)).unwrap_or('é'),
         o => panic!("symbol {o}"),
     }
 }
@@ -52,6 +55,9 @@ fn others_unchanged(a: &Beatmap, b: &Beatmap, except: &[&str]) -> Vec<String> {
 }
 
 pub fn text_replay(args: &Args, s: &mut Summary) {
+    // (not U+2028 / U+0085: they are white space, and surrounding white space is outside the property's domain)
+    let others = ['é', '東', '\u{1F600}', 'ß', '\u{301}', '\u{200b}', '\u{feff}', '\u{7f}', 'İ', '\u{ad}', '\u{10FFFF}'];
+    OTHER_CHAR.store(others[(args.seed as usize) % others.len()] as u32, std::sync::atomic::Ordering::Relaxed);
     let mut rng = Rng::new(args.seed);
     let bases = base_maps(&mut rng, 4);
     let base_back: Vec<Beatmap> = bases.iter().map(|b| reencode(b).expect("base round trip")).collect();
